@@ -7,6 +7,7 @@
 #include "vh.h"
 #include <openssl/pem.h>
 #include <openssl/bn.h>
+#include <openssl/rsa.h>
 #include <openssl/core_names.h>
 
 static EVP_PKEY *read_pem(const char *path, int *is_priv)
@@ -134,6 +135,22 @@ int main(int argc, char **argv)
 			{ const char *alg = k.kind == VH_K_OKP ? "EdDSA" : "PS256"; j = vh_key_jwk(&k, 1, alg, NULL, NULL); write_file(dir, name, "_alg.jwk.json", j, strlen(j)); free(j);
 			  printf("[\"KEY\",\"%s\",%d,%d,\"%s\",\"%s\",0,0]\n", name, (int)k.kind, k.bits, k.crv, k.kind == VH_K_OKP ? "EdDSA" : "RS256"); }
 			vh_key_free(&k);
+		}
+		{	/* a key whose PEM says RSA-PSS (id-RSASSA-PSS), not plain RSA */
+			vh_key_t k;
+			char *j;
+			EVP_PKEY_CTX *c = EVP_PKEY_CTX_new_from_name(NULL, "RSA-PSS", NULL);
+			memset(&k, 0, sizeof(k));
+			k.kind = VH_K_RSAPSS; k.bits = 2048; snprintf(k.name, sizeof(k.name), "rsapss:2048");
+			if (!c || EVP_PKEY_keygen_init(c) <= 0 || EVP_PKEY_CTX_set_rsa_keygen_bits(c, 2048) <= 0 || EVP_PKEY_keygen(c, &k.pkey) <= 0)
+				vh_harness_fail("RSA-PSS keygen");
+			EVP_PKEY_CTX_free(c);
+			write_pems(dir, "rsapss_2048", k.pkey);
+			j = vh_key_jwk(&k, 1, NULL, NULL, NULL); write_file(dir, "rsapss_2048", ".jwk.json", j, strlen(j)); free(j);
+			j = vh_key_jwk(&k, 0, NULL, NULL, NULL); write_file(dir, "rsapss_2048", "_pub.jwk.json", j, strlen(j)); free(j);
+			j = vh_key_jwk(&k, 1, "PS384", NULL, NULL); write_file(dir, "rsapss_2048", "_alg.jwk.json", j, strlen(j)); free(j);
+			printf("[\"KEY\",\"rsapss_2048\",%d,%d,\"\",\"PS256\",0,0]\n", (int)k.kind, k.bits);
+			EVP_PKEY_free(k.pkey);
 		}
 		for (size_t c = 0; c < 4; c++) {
 			int nzc = 0, nzd = 0, plain = 0, made = 0;
